@@ -28,7 +28,7 @@ def _expected(op, form, vl, wl, s):
     f = OPS[op]
     out = []
     for i, x in enumerate(vl):
-        y = s if form in ('vs', 'sv') else wl[i]
+        y = s if form in ('vs', 'sv') else (x if form == 'self' else wl[i])
         if x is None or y is None:
             if form in ('vs', 'sv') and s is None:
                 raise Vacuous()      # None scalar: Python raises TypeError
@@ -48,6 +48,7 @@ def _call(op, form, v, wl, s):
     if form == 'vl': return f(v, list(wl))
     if form == 'sv': return f(s, v)
     if form == 'lv': return f(list(wl), v)
+    if form == 'self': return f(v, v)      # the same object on both sides
     raise ValueError(form)
 
 
@@ -101,6 +102,7 @@ def h_bin_menu(ai: int, bi: int, ci: int, di: int) -> bool:
     """
     pre: 0 <= ai < ML and 0 <= bi < ML and 0 <= ci < ML and 0 <= di < ML
     pre: H.cfg('n') == 2 or (bi == 0 and di == 0)
+    pre: H.cfg('form') != 'self' or (ci == 0 and di == 0)
     post: _
     """
     H.reset()
@@ -428,6 +430,10 @@ def obligations(tier):
             if form in ('vv', 'vl', 'lv'):
                 obs.append(dict(name='mismatch[%s,%s]' % (op, form), fn='h_mismatch', config={'op': op, 'form': form}, budget=40,
                                 bounds='lengths n != m in [0,3]', smoke=[[2, 3, 1], [0, 1, 1]]))
+    for op in OPS:
+        M1 = len(NUM) if op != 'pow' else 10
+        obs.append(dict(name='menu[%s,self,n=2]' % op, fn='h_bin_menu', config={'op': op, 'form': 'self', 'n': 2, 'menu': M1}, budget=60 if q else 300,
+                        bounds='v %s v with the same vector object on both sides, 2 elements, every pair from the %d-entry menu' % (op, M1), smoke=[[2, 3, 0, 0], [1, 4, 0, 0]]))
     for op in ('neg', 'pos', 'abs'):
         obs.append(dict(name='unary[%s]' % op, fn='h_unary', config={'op': op}, budget=60 if q else 300,
                         bounds='<=3 elements: two Optional[int] unbounded + one of {None,True,-2.5,0.0,1-2j,False}', smoke=[[3, None, 2, 3], [-1, 0, 0, 2]]))
